@@ -1,6 +1,6 @@
 (* C15  Server replies are framed and classified per RFC 5321 4.2.  Statements only. *)
 From LV Require Import Base.Bytes Base.Utf8 Base.Res Model.Response Model.ServerInfo Model.Client
-  Proofs.ResponseProofs Proofs.ClientProofs.
+  Proofs.ResponseProofs Proofs.ClientProofs Proofs.ReadExactProofs.
 
 (* Soundness: whatever parse_response accepts is exactly one RFC 5321 4.2 reply - continuation
    lines `code "-" text CRLF` in order, all with the same code, then `code SP text CRLF` or the
@@ -38,6 +38,17 @@ Proof. intros s H. apply read_loop_closed. exact H. Qed.
 Theorem C15_read_only_consumes : forall s : cst, same_ctl s (snd (read_response s)).
 Proof. exact read_response_ctl. Qed.
 
+(* Exactly one reply per read: when the buffer starts with the rendering of a well-formed reply (any number
+   of lines, ASCII text without LF), read_response returns that reply's verdict - Ok for 2xx/3xx, the
+   transient / permanent error with its code and text otherwise - and leaves in the buffer exactly what
+   followed it.  Hence the answer to a command is never taken from a later reply, nor a later reply
+   attributed to an earlier command; how the octets were segmented plays no part (the buffer is their
+   concatenation). *)
+Theorem C15_read_exact : forall (r : response) (rest : bytes) (s : cst),
+  reply_ok r -> Forall plain_text (rlines r) -> inbuf s = wire_of r ++ rest ->
+  read_response s = ((if is_positive r then Ok r else Err (code_error r)), upd_in s rest).
+Proof. exact read_exact. Qed.
+
 Example C15_example_multiline :
   parse_response [50;53;48;45;97;13;10;50;53;48;32;98;13;10;50;50;48] =
   Done (mkResp (mkCode 2 5 0) [[97]; [98]]) [50;50;48].
@@ -54,3 +65,4 @@ Print Assumptions C15_roundtrip.
 Print Assumptions C15_classes.
 Print Assumptions C15_eof_no_wait.
 Print Assumptions C15_read_only_consumes.
+Print Assumptions C15_read_exact.
